@@ -484,4 +484,16 @@ def applyChangesCli : List Change → FileM → Bool → FileM × Bool × Option
       | .ok f' _ => applyChangesCli cs f' true
       | .fail e => (f, false, some e)
 
+/-- `patch.File.Apply` (library): the same loop, except that a refused change does not end it - its error is recorded
+(`errors.Join`) and the next change is tried on the tree as the refused one left it. What that tree is the model does not
+say (`Replace` edits in place and undoes nothing): `dmg` stands for it, and what is proved about the loop holds for every
+`dmg`. In the end any recorded error makes `Apply` return the errors and no bytes. -/
+def applyChangesApi (dmg : Change → FileM → FileM) : List Change → FileM → Bool → List Err → FileM × Bool × List Err
+  | [], f, m, es => (f, m, es)
+  | c :: cs, f, m, es =>
+      match applyChange c f with
+      | .noMatch => applyChangesApi dmg cs f m es
+      | .ok f' _ => applyChangesApi dmg cs f' true es
+      | .fail e => applyChangesApi dmg cs (dmg c f) m (es ++ [e])
+
 end Gopatch
